@@ -1,10 +1,11 @@
 ------------------------------ MODULE TraceCam16 ------------------------------
 (* Trace validation for C16: every recorded event of harness/src/bin/cam16.rs is judged by the verdict      *)
 (* operators of Cam16.tla (stateless: one event per line, each self-contained; the viewing conditions are an  *)
-(* opaque `params` id).  The variable `mn` only keeps, per component type and relation, the smallest number   *)
-(* of bits of agreement seen among the judged events; it is printed as NOTE lines after the last event, so     *)
-(* that every run records the margin to the thresholds (it never influences a verdict).  With CALIB=1 in the   *)
-(* environment the bits of every judged event are printed as well.                                           *)
+(* opaque `params` id).  The variable `mn` only keeps book: per component type and relation the smallest      *)
+(* number of bits of agreement seen among the judged events, and the number of events per kind (keys n.*;     *)
+(* "n.skip": recorded but outside the domain of the specification).  It is printed as NOTE lines after the    *)
+(* last event so that every run records its margin to the thresholds; it never influences a verdict.  With    *)
+(* CALIB=1 in the environment the bits of every judged event are printed as well.                            *)
 EXTENDS Cam16, Json, IOUtils, TLC
 
 Rec == ndJsonDeserialize(IOEnv.TRACE)
@@ -12,38 +13,41 @@ Calib == "CALIB" \in DOMAIN IOEnv /\ IOEnv.CALIB = "1"
 VARIABLES l, mn
 
 Keys == {"rt", "rtc", "pp", "ef", "sat", "wj", "pair", "fj", "fm", "pol", "ij", "im", "urt"}
+Counts == {"n.conv", "n.collar", "n.black", "n.white", "n.pair", "n.ucs", "n.skip"}
 Types == {"f32", "f64"}
 Lower(m, t, k, v) == [m EXCEPT ![t][k] = IF v < @ THEN v ELSE @]
+Count(m, t, k) == [m EXCEPT ![t][k] = @ + 1]
 
 Reject(w) == IF w = "ok" THEN TRUE ELSE PrintT(<<"REJECT", l, w>>)
 
 ConvMin(e, b, col) == Lower(Lower(Lower(Lower(Lower(mn, e.t, IF col = 1 THEN "rtc" ELSE "rt", Min2i(b.rtf, b.rtp)),
                                               e.t, "pp", b.pp), e.t, "ef", b.ef), e.t, "sat", b.sat), e.t, "wj", b.wj)
-StepConv2(e, b, col) == /\ mn' = ConvMin(e, b, col)
+StepConv2(e, b, col) == /\ mn' = Count(ConvMin(e, b, col), e.t, IF e.w = 1 THEN "n.white" ELSE IF col = 1 THEN "n.collar" ELSE "n.conv")
                         /\ Calib => PrintT(<<"NOTE", "conv", e.t, e.pk, e.params, col, b.rtf, b.rtp, b.pp, b.ef, b.sat, b.wj, l>>)
 StepConv(e, b) == /\ Reject(ConvWhyB(e, b))
-                  /\ IF ConvJudged(e) THEN StepConv2(e, b, IF InCollar(DyV(e.x)) THEN 1 ELSE 0) ELSE UNCHANGED mn
+                  /\ IF ConvJudged(e) THEN StepConv2(e, b, IF InCollar(DyV(e.x)) THEN 1 ELSE 0)
+                     ELSE mn' = Count(mn, e.t, IF e.panic = 0 /\ AllFin(e.x) /\ IsZeroV(e.x) THEN "n.black" ELSE "n.skip")
 StepPair(e, b) == /\ Reject(PairWhyB(e, b))
-                  /\ IF PairJudged(e) THEN /\ mn' = Lower(mn, e.t, "pair", b)
+                  /\ IF PairJudged(e) THEN /\ mn' = Count(Lower(mn, e.t, "pair", b), e.t, "n.pair")
                                            /\ Calib => PrintT(<<"NOTE", "pair", e.t, e.params, b, l>>)
-                     ELSE UNCHANGED mn
+                     ELSE mn' = Count(mn, e.t, "n.skip")
 UcsMin(e, b) == Lower(Lower(Lower(Lower(Lower(Lower(mn, e.t, "fj", b.fj), e.t, "fm", b.fm), e.t, "pol", b.pol),
                                   e.t, "ij", b.ij), e.t, "im", b.im), e.t, "urt", b.rt)
 StepUcs(e, b) == /\ Reject(UcsWhyB(e, b))
-                 /\ IF UcsJudged(e) THEN /\ mn' = UcsMin(e, b)
+                 /\ IF UcsJudged(e) THEN /\ mn' = Count(UcsMin(e, b), e.t, "n.ucs")
                                          /\ Calib => PrintT(<<"NOTE", "ucs", e.t, b.fj, b.fm, b.pol, b.ij, b.im, b.rt, l>>)
-                    ELSE UNCHANGED mn
+                    ELSE mn' = Count(mn, e.t, "n.skip")
 
 Step(e) == CASE e.ev = "conv" -> StepConv(e, ConvBits(e))
              [] e.ev = "pair" -> StepPair(e, PairBits(DyV(e.f1), DyV(e.f2)))
              [] e.ev = "ucs" -> StepUcs(e, UcsBits(e))
 
-TInit == l = 1 /\ mn = [t \in Types |-> [k \in Keys |-> 999]]
+TInit == l = 1 /\ mn = [t \in Types |-> [k \in Keys \cup Counts |-> IF k \in Keys THEN 999 ELSE 0]]
 TNext == /\ l <= Len(Rec)
          /\ Rec[l].ev \in {"conv", "pair", "ucs"}
          /\ Step(Rec[l])
          /\ l' = l + 1
-         /\ (l = Len(Rec) => \A t \in Types : \A k \in Keys : PrintT(<<"NOTE", "min", t, k, mn'[t][k]>>))
+         /\ (l = Len(Rec) => \A t \in Types : \A k \in Keys \cup Counts : PrintT(<<"NOTE", "min", t, k, mn'[t][k]>>))
 TSpec == TInit /\ [][TNext]_<<l, mn>>
 Consumed == TLCGet("stats").diameter = Len(Rec) + 1 \/ PrintT(<<"UNCONSUMED", TLCGet("stats").diameter>>)
 =============================================================================
